@@ -1,19 +1,21 @@
 """C12 — correspondence of the `fit` state machine (QV.Model.Train.fit) with NeuralStateBase.fit:
-event protocol, dispatch order, stop requests, parameter-change window, scheduler steps, Timer lines.
+event protocol, dispatch order, stop requests, parameter-change window, scheduler steps; LambdaCallback construction / dispatch.
 
-The real `fit` runs on tiny states with recording callbacks (LambdaCallback and CallbackBase subclasses), a
-recording SGD subclass (optimizer=), a counting scheduler class (scheduler=), torch.randperm wrapped in-process
-(one call per `_shuffle_data`), stdout captured for the Timer. Stop requests are injected by a chosen callback at
-a chosen event, or from inside `optimizer.step()` ("during the batch").
+The real `fit` runs on tiny states with recording callbacks (LambdaCallback given all or a SUBSET of the six handlers, CallbackBase
+subclasses overriding all or some methods), a recording SGD subclass (optimizer=, parameter hash on entry and exit of every step), a
+counting scheduler class (scheduler=), `compute_batch_gradients` wrapped on the instance (the point before the update). Stop requests are
+injected by a chosen callback at a chosen event, before the update (from the gradient computation) or after it (inside `optimizer.step()`).
+What is compared: handler invocations (who, which event, which arguments, flag seen, parameter version), optimizer and scheduler steps,
+final flag. NOT compared (not in the property): what is printed (Timer wording), where the data are shuffled / which RNG calls are made.
 
 A case is a SESSION: one state object and one or more consecutive `fit` calls on it (model: QV.Train.session). Each call has
-its own arguments: data (N rows, container form), pos/neg batch sizes, `callbacks=` container form (None / list / tuple /
+its own arguments: data (N rows incl. N = 0, container form), pos/neg batch sizes, `callbacks=` container form (None / list / tuple /
 CallbackList / iterator; a later call may pass the very same container object again), time, scheduler, starting_epoch/epochs,
-stop injections, and what the caller does to the flag before it (nothing / `stop_training = True` / `= False`)."""
+stop injections, and what the caller does to the flag before it (nothing / `stop_training = True` / `= False`).
+A second stream exercises the LambdaCallback constructor (arity by `inspect.signature`, non-callables, None)."""
 import contextlib
 import hashlib
 import io
-import re
 
 import numpy as np
 
@@ -33,6 +35,8 @@ REQUIRED_THEOREMS = [
     "C12_stop_at_epoch_end", "C12_stop_at_epoch_start", "C12_stop_at_train_start", "C12_no_event_after_stop",
     "C12_sticky", "C12_stopped_run_is_noop", "C12_param_window", "C12_dispatch_order",
     "C12_scheduler_once_per_epoch", "C12_callbacks_container", "C12_batches_per_epoch", "C12_fit_args", "C12_session_stopped",
+    "C12_protocol_no_batches", "C12_stop_at_epoch_start_no_batches", "C12_stop_at_train_start_no_batches",
+    "C12_scheduler_once_per_epoch_no_batches", "C12_fit_args_no_rows", "C12_lambda_init", "C12_lambda_dispatch",
 ]
 RULE = ("case = session on one state object (kind) of 1..3 consecutive fit calls, each call = (starting_epoch, epochs, N, "
         "pos_batch_size, neg_batch_size in {None, 0, < pos, = pos, > pos, >= N}, data container form (tensor dtypes, non-contiguous "
@@ -42,8 +46,13 @@ RULE = ("case = session on one state object (kind) of 1..3 consecutive fit calls
         "/ (during batch e,b), incl. periodic requests (every p-th epoch end / batch end)); epochs-starting_epoch in -2..3, N/batch "
         "sizes giving 1..4 batches (incl. N < batch, N not divisible by pos or neg), 0..3 callbacks (an object may be listed "
         "twice); thorough injects a stop at every event and every batch of the unstopped single call, quick a seeded subset; "
-        "non-trivial iff some call begins at least one epoch and (a stop is injected or there are >= 2 batches or >= 2 callbacks); "
-        "distinct by hash of the case")
+        "callback objects = LambdaCallback given a SUBSET of the six handlers (each handler a plain / defaulted-parameter / var-args "
+        "function) or CallbackBase subclass overriding a subset of the methods; stop raised before the update (wrapped "
+        "compute_batch_gradients) or after it (inside optimizer.step); N = 0 (no batches; positive state, neg = pos); plus a constructor "
+        "stream: LambdaCallback(six arguments each None / callable with 0..4 parameters in 9 callable forms / non-callable) with the "
+        "expected outcome from the parameter count BY CONSTRUCTION; "
+        "non-trivial iff some call begins at least one epoch and (a stop is injected or there are >= 2 batches or >= 2 callbacks), or a "
+        "constructor case with >= 1 non-None argument; distinct by hash of the case")
 EXTRA_TRUSTED = [
     "C12: user callbacks are modelled only through the stop requests they make (Req); exceptions raised by callbacks, "
     "progress bars and GPU paths are not modelled; `_shuffle_data` is assumed to succeed (its error cases belong to C07)",
@@ -51,6 +60,12 @@ EXTRA_TRUSTED = [
 
 KINDS = ("pos", "cplx", "dens")
 NB_CHOICES = [(4, 4), (2, 5), (3, 2), (4, 2), (5, 2), (3, 1), (4, 1), (7, 2), (10, 3), (7, 3), (5, 3), (9, 4)]  # 1..4 batches
+NB_EMPTY = [(0, 1), (0, 2), (0, 3)]  # no rows: zero batches per epoch (positive state, neg_batch_size falsy or = pos_batch_size)
+SLOTS = ("ts", "te", "es", "ee", "bs", "be")  # validation order of LambdaCallback.__init__
+SLOT_NAME = {"ts": "on_train_start", "te": "on_train_end", "es": "on_epoch_start", "ee": "on_epoch_end",
+             "bs": "on_batch_start", "be": "on_batch_end"}
+SLOT_ARGS = {"ts": 1, "te": 1, "es": 2, "ee": 2, "bs": 3, "be": 3}  # arguments CallbackList passes (callback_list.py:60-82)
+DISPATCH_FORMS = ("pos", "def", "var")  # callable forms that accept the positional call CallbackList makes
 CB_FORMS = ("list", "tuple", "cblist", "iter")
 
 
@@ -79,10 +94,11 @@ def ref_events(start, epochs, nb, stop0, requested):
     p = pts[first]
     pre = [q for q in pts[: first + 1] if q[0] != "mid"]
     tag = p[0]
+    one = (lambda e: [["bs", e, 0], ["be", e, 0]]) if nb >= 1 else (lambda e: [])  # the one batch that may still run
     if tag == "ts":
-        closing = ([["es", start], ["bs", start, 0], ["be", start, 0], ["ee", start]] if start <= epochs else []) + [["te"]]
+        closing = ([["es", start]] + one(start) + [["ee", start]] if start <= epochs else []) + [["te"]]
     elif tag == "es":
-        closing = [["bs", p[1], 0], ["be", p[1], 0], ["ee", p[1]], ["te"]]
+        closing = one(p[1]) + [["ee", p[1]], ["te"]]
     elif tag in ("bs", "mid"):
         closing = [["be", p[1], p[2]], ["ee", p[1]], ["te"]]
     elif tag == "be":
@@ -115,20 +131,26 @@ def param_hash(st):
 class _Recorder:
     """shared log + injection plan of one run"""
 
-    def __init__(self, inject_cb, inject_mid_ordinals):
+    def __init__(self, inject_cb, inject_mid_ordinals, inject_pre_ordinals=()):
         self.log = []
         self.inject_cb = {(i, tuple(ev)) for i, ev in inject_cb}
         self.inject_mid = set(inject_mid_ordinals)
+        self.inject_pre = set(inject_pre_ordinals)
         self.hashes = {}
         self.opt_steps = 0
+        self.grad_calls = 0
         self.sched_steps = 0
+        self.step_hashes = []  # (parameter hash on entry of optimizer.step, on exit)
+        self.ucalls = []  # [function id, callback identity, event built from the ARGUMENTS the function received]
+        self.bad_args = []
 
     def version(self, st):
         h = param_hash(st)
         return self.hashes.setdefault(h, len(self.hashes))
 
-    def handle(self, ident, st, ev):
+    def handle(self, ident, st, ev, fid=None):
         self.log.append(["call", ident, ev, bool(st.stop_training), self.version(st)])
+        self.ucalls.append([fid, ident, ev])
         if (ident, tuple(ev)) in self.inject_cb:
             st.stop_training = True
 
@@ -138,43 +160,107 @@ class _Holder:
 
     rec = None
 
-    def handle(self, ident, st, ev):
-        self.rec.handle(ident, st, ev)
+    def handle(self, ident, st, ev, fid=None):
+        self.rec.handle(ident, st, ev, fid)
 
 
-def make_callback(rec, ident, as_lambda):
+def fid_of(ident, tag):
+    """identity of the user function sitting in slot `tag` of callback `ident` (model: `Handler.user`)"""
+    return 10 * ident + SLOTS.index(tag)
+
+
+def make_fn(k, form, sink):
+    """a callable for which `len(inspect.signature(fn).parameters) == k` BY CONSTRUCTION (k = 0..4), in the given form; it forwards the
+    positional arguments it receives to `sink(args)`.
+    forms: pos (plain positional), def (last parameter defaulted), var (last parameter *args), kw (last parameter **kw),
+    kwonly (last parameter keyword-only with default), partial (functools.partial binding one leading positional argument of a
+    (k+1)-parameter function), method (bound method; self not counted), obj (instance with __call__), pkw (functools.partial binding the
+    last parameter BY KEYWORD: it stays in the signature as keyword-only)."""
+    import functools
+
+    if form == "pos":
+        return [lambda: sink(()), lambda s: sink((s,)), lambda s, e: sink((s, e)), lambda s, e, b: sink((s, e, b)),
+                lambda s, e, b, x: sink((s, e, b, x))][k]
+    if form == "def":
+        return [None, lambda s=None: sink((s,)), lambda s, e=None: sink((s, e)), lambda s, e, b=None: sink((s, e, b)),
+                lambda s, e, b, x=None: sink((s, e, b, x))][k]
+    if form == "var":
+        return [None, lambda *a: sink(a), lambda s, *a: sink((s,) + a), lambda s, e, *a: sink((s, e) + a),
+                lambda s, e, b, *a: sink((s, e, b) + a)][k]
+    if form == "kw":
+        return [None, lambda **kw: sink(()), lambda s, **kw: sink((s,)), lambda s, e, **kw: sink((s, e)),
+                lambda s, e, b, **kw: sink((s, e, b))][k]
+    if form == "kwonly":
+        return [None, lambda *, z=None: sink(()), lambda s, *, z=None: sink((s,)), lambda s, e, *, z=None: sink((s, e)),
+                lambda s, e, b, *, z=None: sink((s, e, b))][k]
+    if form == "partial":
+        return functools.partial([lambda q: sink(()), lambda q, s: sink((s,)), lambda q, s, e: sink((s, e)),
+                                  lambda q, s, e, b: sink((s, e, b)), lambda q, s, e, b, x: sink((s, e, b, x))][k], 0)
+    if form == "pkw":
+        return [None, functools.partial(lambda s: sink((s,)), s=0), functools.partial(lambda s, e: sink((s, e)), e=0),
+                functools.partial(lambda s, e, b: sink((s, e, b)), b=0),
+                functools.partial(lambda s, e, b, x: sink((s, e, b, x)), x=0)][k]
+
+    class Obj:
+        def m0(self):
+            return sink(())
+
+        def m1(self, s):
+            return sink((s,))
+
+        def m2(self, s, e):
+            return sink((s, e))
+
+        def m3(self, s, e, b):
+            return sink((s, e, b))
+
+        def m4(self, s, e, b, x):
+            return sink((s, e, b, x))
+
+    if form == "method":
+        return getattr(Obj(), f"m{k}")
+    if form == "obj":
+        cls = type("CallableObj", (), {"__call__": getattr(Obj, f"m{k}")})
+        return cls()
+    raise ValueError(form)
+
+
+ALL_FORMS = ("pos", "def", "var", "kw", "kwonly", "partial", "pkw", "method", "obj")
+NON_CALLABLES = (3, "on_epoch_end", [], {}, 2.5, (1, 2), b"x", True)
+
+
+def obj_spec(case, ident):
+    """callback object spec of identity `ident`: {"lam": bool, "forms": [six of pos/def/var/none]} (old cases: all six, plain)"""
+    objs = case.get("objs")
+    if objs is not None and str(ident) in objs:
+        return objs[str(ident)]
+    lam = case["lambda"]
+    return {"lam": (lam[ident % len(lam)] if lam else True), "forms": ["pos"] * 6}
+
+
+def make_callback_spec(hold, ident, spec):
+    """LambdaCallback given exactly the handlers of `spec` (the others stay None) / CallbackBase subclass overriding exactly those"""
     from qucumber.callbacks import CallbackBase, LambdaCallback
 
-    if as_lambda:
-        return LambdaCallback(
-            on_train_start=lambda s: rec.handle(ident, s, ["ts"]),
-            on_train_end=lambda s: rec.handle(ident, s, ["te"]),
-            on_epoch_start=lambda s, e: rec.handle(ident, s, ["es", int(e)]),
-            on_epoch_end=lambda s, e: rec.handle(ident, s, ["ee", int(e)]),
-            on_batch_start=lambda s, e, b: rec.handle(ident, s, ["bs", int(e), int(b)]),
-            on_batch_end=lambda s, e, b: rec.handle(ident, s, ["be", int(e), int(b)]),
-        )
+    def sink_for(tag):
+        k = SLOT_ARGS[tag]
 
-    class Rec(CallbackBase):
-        def on_train_start(self, nn_state):
-            rec.handle(ident, nn_state, ["ts"])
+        def sink(args):
+            if len(args) != k:
+                hold.rec.bad_args.append([ident, tag, len(args)])
+            hold.handle(ident, args[0], [tag] + [int(x) for x in args[1:k]], fid_of(ident, tag))
 
-        def on_train_end(self, nn_state):
-            rec.handle(ident, nn_state, ["te"])
+        return sink
 
-        def on_epoch_start(self, nn_state, epoch):
-            rec.handle(ident, nn_state, ["es", int(epoch)])
-
-        def on_epoch_end(self, nn_state, epoch):
-            rec.handle(ident, nn_state, ["ee", int(epoch)])
-
-        def on_batch_start(self, nn_state, epoch, batch):
-            rec.handle(ident, nn_state, ["bs", int(epoch), int(batch)])
-
-        def on_batch_end(self, nn_state, epoch, batch):
-            rec.handle(ident, nn_state, ["be", int(epoch), int(batch)])
-
-    return Rec()
+    given = {tag: form for tag, form in zip(SLOTS, spec["forms"]) if form != "none"}
+    if spec["lam"]:
+        return LambdaCallback(**{SLOT_NAME[tag]: make_fn(SLOT_ARGS[tag], form, sink_for(tag)) for tag, form in given.items()})
+    methods = {}
+    for tag in given:
+        sink = sink_for(tag)
+        methods[SLOT_NAME[tag]] = {1: (lambda sk: lambda self, s: sk((s,)))(sink), 2: (lambda sk: lambda self, s, e: sk((s, e)))(sink),
+                                   3: (lambda sk: lambda self, s, e, b: sk((s, e, b)))(sink)}[SLOT_ARGS[tag]]
+    return type("RecSubset", (CallbackBase,), methods)()
 
 
 def make_optimizer_class(rec, st):
@@ -183,7 +269,12 @@ def make_optimizer_class(rec, st):
             k = rec.opt_steps
             rec.opt_steps += 1
             rec.log.append(["opt"])
+            h0 = param_hash(st)
             r = super().step(closure)
+            h1 = param_hash(st)
+            rec.step_hashes.append((h0, h1))
+            rec.hashes.setdefault(h0, len(rec.hashes))  # versions are numbered by the steps, also when no handler looks in between
+            rec.hashes.setdefault(h1, len(rec.hashes))
             if k in rec.inject_mid:
                 st.stop_training = True
             return r
@@ -204,29 +295,6 @@ def make_scheduler_class(rec):
     return CountingScheduler
 
 
-TIMER_RE = [
-    (re.compile(r"^Training terminated at epoch: (-?\d+), batch: (\d+)$"), lambda m: ["tb", int(m.group(1)), int(m.group(2))]),
-    (re.compile(r"^Training terminated at epoch: (-?\d+)$"), lambda m: ["tep", int(m.group(1))]),
-    (re.compile(r"^Total time elapsed during training:\s*[-\d.]+ s$"), lambda m: ["total"]),
-]
-
-
-def parse_prints(text):
-    out = []
-    for line in text.splitlines():
-        line = line.strip()
-        if not line:
-            continue
-        for rx, f in TIMER_RE:
-            m = rx.match(line)
-            if m:
-                out.append(f(m))
-                break
-        else:
-            out.append(["other", line[:80]])
-    return out
-
-
 def make_container(cb_list, form):
     """the `callbacks=` argument in the given container form"""
     from qucumber.callbacks import CallbackList
@@ -243,11 +311,23 @@ def make_container(cb_list, form):
     return list(cb_list)
 
 
+def empty_container(form):
+    """a data set with no rows in the given container family"""
+    if form.startswith("ndarray"):
+        return np.zeros((0, 2), dtype=np.int64 if "i64" in form else np.float64)
+    if form == "list":
+        return []
+    if form == "tuple":
+        return ()
+    return torch.zeros(0, 2, dtype={"tensor_f32": torch.float32, "tensor_i64": torch.int64, "tensor_u8": torch.uint8}.get(form, torch.double))
+
+
 def make_data(kind, N, rng):
     n = 2
     data = [[rng.randint(0, 1) for _ in range(n)] for _ in range(N)]
     bases = None
     if kind != "pos":
+        assert N >= 1, "no rows: only for the positive state (randint over an empty reference-basis set raises, C07)"
         bases = [[rng.choice("XYZ") for _ in range(n)] for _ in range(N)]
         bases[rng.randrange(N)] = ["Z"] * n  # at least one reference-basis row (randint needs a non-empty range)
     return data, bases
@@ -260,7 +340,7 @@ def strip_model_log(mlog):
         t = en[0]
         if t == "call":
             out.append(["call", en[1], en[2], en[3], en[4]])
-        elif t in ("opt", "sched", "shuffle"):
+        elif t in ("opt", "sched"):  # where the data are shuffled (RNG use) is not part of the event protocol: not compared
             out.append([t])
     return out
 
@@ -277,6 +357,8 @@ def as_session(case):
 def one_case(ctx, case):
     import random
 
+    if "ctor" in case:
+        return ctor_case(ctx, case)
     case = as_session(case)
     ctx.current_case = case
     kind, lam, runs = case["kind"], case["lambda"], case["runs"]
@@ -285,35 +367,48 @@ def one_case(ctx, case):
     torch.manual_seed(case["dseed"])
     hold = _Holder()
     objs = {}
+    specs = {}
     for run in runs:
         for i in run["cbs"]:
             if i not in objs:
-                objs[i] = make_callback(hold, i, lam[i % len(lam)] if lam else True)
+                specs[i] = obj_spec(case, i)
+                objs[i] = make_callback_spec(hold, i, specs[i])
     model = None
     if ctx.driver is not None:
-        model = ctx.driver.call("c12.session", stop0=False, runs=[
+        # the model builds each object from its constructor arguments (QV.Train.lambdaInit / subclassObj), restricts the requests to
+        # handlers that run user code (Req.via) and returns the log as user code can observe it (observe)
+        mobjs = []
+        for i, sp in sorted(specs.items()):
+            if sp["lam"]:
+                mobjs.append([i, {"kind": "lambda", "args": [None if f == "none" else {"id": fid_of(i, t), "nparams": SLOT_ARGS[t]}
+                                                             for t, f in zip(SLOTS, sp["forms"])]}])
+            else:
+                mobjs.append([i, {"kind": "subclass", "overrides": [None if f == "none" else fid_of(i, t) for t, f in zip(SLOTS, sp["forms"])]}])
+        model = ctx.driver.call("c12.session", stop0=False, objs=mobjs, runs=[
             {"pre": r["pre"], "start": r["start"], "epochs": r["epochs"], "N": r["N"], "posB": r["B"], "negB": r["neg"],
              "hasBases": kind != "pos", "callbacks": {"form": r["cb_form"], "items": r["cbs"]}, "timer": r["time"],
              "hasSched": r["sched"], "req_cb": [[i, ev] for i, ev in r["inject_cb"]],
-             "req_mid": [[e, b] for e, b in r["inject_mid"]]} for r in runs])
+             "req_mid": [[e, b] for e, b in r["inject_mid"] + r.get("inject_pre", [])]} for r in runs])
     sess = {"stop": False, "container": None, "container_key": None, "nontriv": False, "sample": None}
     ctx.count(f"calls_per_session={len(runs)}")
     for r_idx, run in enumerate(runs):
         m = None
         if model is not None:
             m = model["runs"][r_idx] if "runs" in model else {"error": model.get("error")}
-        one_call(ctx, {**case, "run": r_idx}, kind, st, rng, hold, objs, run, r_idx, sess, m)
+        one_call(ctx, {**case, "run": r_idx}, kind, st, rng, hold, objs, run, r_idx, sess, m, specs)
     ctx.case({k: case[k] for k in case if k != "dseed"}, nontrivial=sess["nontriv"], sample=sess["sample"])
 
 
-def one_call(ctx, case, kind, st, rng, hold, objs, run, r_idx, sess, m):
+def one_call(ctx, case, kind, st, rng, hold, objs, run, r_idx, sess, m, specs):
     start, epochs, N, B, neg = run["start"], run["epochs"], run["N"], run["B"], run["neg"]
     cbs, timer, sched, pre = run["cbs"], run["time"], run["sched"], run["pre"]
-    inj_cb, inj_mid = run["inject_cb"], run["inject_mid"]
+    inj_cb, inj_mid, inj_pre = run["inject_cb"], run["inject_mid"], run.get("inject_pre", [])
     nb = -(-N // B)
     data, bases = make_data(kind, N, rng)
     ordinal = lambda e, b: (e - start) * nb + b  # noqa: E731
-    rec = _Recorder(inj_cb, [ordinal(e, b) for e, b in inj_mid])
+    rec = _Recorder(inj_cb, [ordinal(e, b) for e, b in inj_mid], [ordinal(e, b) for e, b in inj_pre])
+    active = lambda i, ev: specs[i]["forms"][SLOTS.index(ev[0])] != "none"  # noqa: E731  does callback i run user code for ev?
+    all_active = all(f != "none" for i in cbs for f in specs[i]["forms"])
     hold.rec = rec
     cb_list = [objs[i] for i in cbs]
     key = (run["cb_form"], tuple(cbs))
@@ -343,17 +438,21 @@ def one_call(ctx, case, kind, st, rng, hold, objs, run, r_idx, sess, m):
     flag_at_entry = bool(st.stop_training)
     h_before = param_hash(st)
     rec.hashes[h_before] = 0
-    data_obj = container(data, run["form"])
+    data_obj = container(data, run["form"]) if N else empty_container(run["form"])
     bases_a = np.array(bases) if bases is not None else None
-    orig_randperm = torch.randperm
+    orig_cbg = st.compute_batch_gradients
 
-    def rp(*a, **k):
-        rec.log.append(["shuffle"])
-        return orig_randperm(*a, **k)
+    def cbg(*a, **k):  # the point BEFORE the update of the batch in progress
+        kk = rec.grad_calls
+        rec.grad_calls += 1
+        rec.log.append(["grad"])
+        if kk in rec.inject_pre:
+            st.stop_training = True
+        return orig_cbg(*a, **k)
 
     buf = io.StringIO()
     err = None
-    torch.randperm = rp
+    st.compute_batch_gradients = cbg  # instance attribute shadows the method for this call only
     try:
         with contextlib.redirect_stdout(buf):
             st.fit(data_obj, epochs=epochs, pos_batch_size=B, neg_batch_size=neg, k=1, lr=0.1, input_bases=bases_a, progbar=False,
@@ -363,26 +462,30 @@ def one_call(ctx, case, kind, st, rng, hold, objs, run, r_idx, sess, m):
     except Exception as e:  # fit is not expected to raise on these inputs
         err = f"{type(e).__name__}: {e}"
     finally:
-        torch.randperm = orig_randperm
-    prints = parse_prints(buf.getvalue())
+        del st.compute_batch_gradients
+    # what the Timer (or anything else) prints is not part of the property: only counted, never compared
+    printed_lines = sum(1 for ln in buf.getvalue().splitlines() if ln.strip())
     final = {"stop": bool(st.stop_training), "ver": rec.opt_steps, "sched": rec.sched_steps}
     h_after = param_hash(st)
     if run["cb_form"] in ("list", "tuple", "cblist"):  # frame: the caller's container still holds exactly the callbacks it listed
         ident_of = {id(o): i for i, o in objs.items()}
         after_items = [ident_of.get(id(o), f"foreign:{type(o).__name__}") for o in cb_arg]
         ctx.point("caller's callbacks container after the call", "aux", after_items, cbs, case, exact=True, sig=f"{kind}/fit/callbacks-container-frame")
-    L = len(cbs)
+    L = len(cbs) if all_active else 0  # the group-based oracles below need every callback to see every event
+    full_log = rec.log
+    rec.log = [en for en in full_log if en[0] != "grad"]  # the model's log has no entry for the gradient computation
     calls = [en for en in rec.log if en[0] == "call"]
     groups = [calls[k:k + L] for k in range(0, len(calls), L)] if L else []
     impl_events = [g[0][2] for g in groups] if L else None
 
     sig = f"{kind}/fit"
-    exp_events, exp_stop = ref_events(
-        start, epochs, nb, stop0,
-        lambda p: (p[0] == "mid" and [p[1], p[2]] in inj_mid) or (p[0] != "mid" and any(i in cbs and ev == p for i, ev in inj_cb)))
+    # a request is made only if the callback is listed AND runs user code for that event
+    requested = lambda p: ((p[0] == "mid" and ([p[1], p[2]] in inj_mid or [p[1], p[2]] in inj_pre)) or  # noqa: E731
+                           (p[0] != "mid" and any(i in cbs and ev == p and active(i, ev) for i, ev in inj_cb)))
+    exp_events, exp_stop = ref_events(start, epochs, nb, stop0, requested)
     sess["stop"] = exp_stop
     begun = sum(1 for ev in exp_events if ev[0] == "es")
-    if begun >= 1 and (bool(inj_cb) or bool(inj_mid) or nb >= 2 or L >= 2):
+    if begun >= 1 and (bool(inj_cb) or bool(inj_mid) or bool(inj_pre) or nb >= 2 or len(cbs) >= 2):
         sess["nontriv"] = True
     if sess["sample"] is None:
         sess["sample"] = {"kind": kind, "calls": len(case["runs"]), "start": start, "epochs": epochs, "N": N, "B": B, "neg": neg,
@@ -390,7 +493,7 @@ def one_call(ctx, case, kind, st, rng, hold, objs, run, r_idx, sess, m):
                           "events": len(exp_events)}
     negkey = ("None" if neg is None else "0" if neg == 0 else "<B" if neg < B else "=B" if neg == B else
               ">B,same#batches" if -(-N // neg) == nb else ">B,fewer")
-    for key in (f"kind={kind}", f"epochs-start={epochs - start}", f"batches={nb}", f"callbacks={L}", f"time={timer}",
+    for key in (f"kind={kind}", f"epochs-start={epochs - start}", f"batches={nb}", f"callbacks={len(cbs)}", f"time={timer}",
                 f"sched={sched}", f"stop0={stop0}", f"neg={negkey}", f"cb_form={run['cb_form']}", f"form={run['form']}",
                 f"call#{r_idx}:pre={pre}", f"N%B={'0' if N % B == 0 else 'r'}"):
         ctx.count(key)
@@ -402,8 +505,18 @@ def one_call(ctx, case, kind, st, rng, hold, objs, run, r_idx, sess, m):
         ctx.count("call_after_a_call_that_ended_stopped(no reset)")
     if inj_mid:
         ctx.count("inject_at=mid")
-    if not inj_cb and not inj_mid:
+    if inj_pre:
+        ctx.count("inject_at=mid(before the update)")
+    if not inj_cb and not inj_mid and not inj_pre:
         ctx.count("inject_at=none")
+    if cbs and not all_active:
+        ctx.count("handler_subset")
+        for i in set(cbs):
+            ctx.count(f"handlers_given={sum(f != 'none' for f in specs[i]['forms'])}" + ("(lambda)" if specs[i]["lam"] else "(subclass)"))
+    for i in set(cbs):
+        for f in specs[i]["forms"]:
+            if f not in ("pos", "none"):
+                ctx.count(f"handler_form={f}")
 
     # ---------------- oracles on the implementation (independent of the model)
     ctx.oracle("fit raised", err is None, case, detail=err, sig=f"{sig}/exception", theorem="C12_protocol")
@@ -446,8 +559,52 @@ def one_call(ctx, case, kind, st, rng, hold, objs, run, r_idx, sess, m):
                 if any(i == en[1] and ev == en[2] for i, ev in inj_cb):
                     run_flag = True
             elif en[0] == "opt":
-                if k_opt in rec.inject_mid:
+                if k_opt in rec.inject_mid or k_opt in rec.inject_pre:
                     run_flag = True
+                k_opt += 1
+        ctx.oracle("flag seen by handlers == OR of requests so far (sticky)", ok_seen and final["stop"] == run_flag, case,
+                   sig=f"{sig}/sticky", theorem="C12_sticky")
+    # ---- oracles that also hold when callbacks have only a subset of the handlers (and with no callbacks at all)
+    exp_ucalls = [[fid_of(i, ev[0]), i, ev] for ev in exp_events for i in cbs if active(i, ev)]
+    ctx.oracle("user functions invoked == protocol trace filtered to the handlers given (own slot, own arguments, list order)",
+               rec.ucalls == exp_ucalls and not rec.bad_args, case,
+               detail={"impl": rec.ucalls[:40], "expected": exp_ucalls[:40], "bad_arg_counts": rec.bad_args[:5]},
+               sig=f"{sig}/protocol" if all_active else f"{sig}/handler-subset", theorem="C12_lambda_dispatch, C12_lambda_init, C12_dispatch_order")
+    n_opt = 0
+    ok_ver = True
+    for en in rec.log:
+        if en[0] == "opt":
+            n_opt += 1
+        elif en[0] == "call" and en[4] != n_opt:
+            ok_ver = False
+    ctx.oracle("every handler sees parameter version == number of optimizer steps so far", ok_ver, case,
+               detail={"versions": [[en[2], en[4]] for en in calls[:40]]}, sig=f"{sig}/param-window", theorem="C12_param_window")
+    # parameters are written by optimizer.step only: the hash on entry of each step is the hash the previous step (or the caller) left,
+    # every step changes it (weight decay), and what the call returns is what the last step left -- with or without callbacks
+    chain = [h_before] + [h for pair in rec.step_hashes for h in pair] + [h_after]
+    ok_chain = all(chain[k] == chain[k + 1] for k in range(0, len(chain), 2)) and all(a != b for a, b in rec.step_hashes)
+    ctx.oracle("parameters change inside optimizer.step and nowhere else (before the first, between two, after the last step)", ok_chain,
+               case, detail={"steps": len(rec.step_hashes), "first_break": next((k // 2 for k in range(0, len(chain), 2) if chain[k] != chain[k + 1]), None)},
+               sig=f"{sig}/param-frame", theorem="C12_param_window, C12_stopped_run_is_noop")
+    # each batch window is: batch-start handlers, gradient, optimizer step, batch-end handlers -- also when a stop is raised in between
+    ok_pairs = (len(full_log) == len(rec.log) + rec.grad_calls and rec.grad_calls == rec.opt_steps and
+                all(full_log[k + 1][0] == "opt" for k, en in enumerate(full_log[:-1]) if en[0] == "grad") and
+                (not full_log or full_log[-1][0] != "grad"))
+    ctx.oracle("every gradient computation is followed by its optimizer step (a stop raised in between does not skip the update)", ok_pairs,
+               case, detail={"grad": rec.grad_calls, "opt": rec.opt_steps}, sig=f"{sig}/update-completes",
+               theorem="C12_param_window, C12_stop_in_batch")
+    if not all_active or not cbs:
+        run_flag, ok_seen, k_opt, k_grad = stop0, True, 0, 0
+        for en in full_log:
+            if en[0] == "call":
+                ok_seen = ok_seen and en[3] == run_flag
+                if any(i == en[1] and ev == en[2] for i, ev in inj_cb):
+                    run_flag = True
+            elif en[0] == "grad":
+                run_flag = run_flag or k_grad in rec.inject_pre
+                k_grad += 1
+            elif en[0] == "opt":
+                run_flag = run_flag or k_opt in rec.inject_mid
                 k_opt += 1
         ctx.oracle("flag seen by handlers == OR of requests so far (sticky)", ok_seen and final["stop"] == run_flag, case,
                    sig=f"{sig}/sticky", theorem="C12_sticky")
@@ -459,15 +616,31 @@ def one_call(ctx, case, kind, st, rng, hold, objs, run, r_idx, sess, m):
     ctx.oracle("one scheduler step per epoch begun", final["sched"] == (begun if sched else 0), case,
                detail={"steps": final["sched"], "epochs_begun": begun}, sig=f"{sig}/sched-count", theorem="C12_scheduler_once_per_epoch")
     # batches per epoch: every epoch that is not cut short by a stop has ceil(N / pos_batch_size) optimizer steps
-    per_epoch = []
-    for en in rec.log:
-        if en[0] == "shuffle":
-            per_epoch.append(0)
-        elif en[0] == "opt" and per_epoch:
-            per_epoch[-1] += 1
-    full = per_epoch[:-1] if exp_stop and not stop0 else per_epoch
-    ctx.oracle("every uninterrupted epoch has ceil(N / pos_batch_size) batches", all(x == nb for x in full) and len(per_epoch) == begun,
-               case, detail={"per_epoch": per_epoch, "expected": nb}, sig=f"{sig}/batches-per-epoch", theorem="C12_batches_per_epoch")
+    # (epochs are delimited by the scheduler steps, or by the epoch-end calls of a callback that sees every event; without either the
+    # total number of optimizer steps above is the only observation)
+    per_epoch = None
+    if sched:
+        per_epoch, cur = [], 0
+        for en in rec.log:
+            if en[0] == "opt":
+                cur += 1
+            elif en[0] == "sched":
+                per_epoch.append(cur)
+                cur = 0
+    elif L:
+        per_epoch, cur = [], 0
+        for en in rec.log:
+            if en[0] == "opt":
+                cur += 1
+            elif en[0] == "call" and en[1] == cbs[0] and en[2][0] == "ee":
+                per_epoch.append(cur)
+                cur = 0
+        per_epoch = per_epoch[::cbs.count(cbs[0])] if cbs.count(cbs[0]) > 1 else per_epoch
+    full = []
+    if per_epoch is not None:
+        full = per_epoch[:-1] if exp_stop and not stop0 else per_epoch
+        ctx.oracle("every uninterrupted epoch has ceil(N / pos_batch_size) batches", all(x == nb for x in full) and len(per_epoch) == begun,
+                   case, detail={"per_epoch": per_epoch, "expected": nb}, sig=f"{sig}/batches-per-epoch", theorem="C12_batches_per_epoch")
     # scheduler position: after the last optimizer step of the epoch and before the epoch-end calls
     if sched and L:
         ok_pos = True
@@ -475,39 +648,15 @@ def one_call(ctx, case, kind, st, rng, hold, objs, run, r_idx, sess, m):
             if en[0] == "sched":
                 before = rec.log[k - 1] if k else None
                 after = rec.log[k + 1] if k + 1 < len(rec.log) else None
-                if not (before and before[0] == "call" and before[2][0] == "be" and after and after[0] == "call" and after[2][0] == "ee"
-                        and after[2][1] == before[2][1]):
+                if not (before and before[0] == "call" and before[2][0] == ("be" if nb else "es") and after and after[0] == "call"
+                        and after[2][0] == "ee" and after[2][1] == before[2][1]):
                     ok_pos = False
         ctx.oracle("scheduler step sits between the last batch-end and the epoch-end", ok_pos, case,
                    sig=f"{sig}/sched-position", theorem="C12_scheduler_once_per_epoch")
     if stop0:
-        ctx.oracle("stopped run is a no-op", rec.log == [] and prints == [] and h_after == h_before and final["stop"], case,
-                   detail={"log": rec.log[:10], "prints": prints}, sig=f"{sig}/noop", theorem="C12_stopped_run_is_noop, C12_session_stopped")
-    if timer and not stop0:
-        first_set = None
-        if L:
-            run_flag, k_opt, in_group = False, 0, 0
-            for en in rec.log:
-                if en[0] == "opt":
-                    if k_opt in rec.inject_mid:
-                        run_flag = True
-                    k_opt += 1
-                elif en[0] == "call":
-                    if any(i == en[1] and ev == en[2] for i, ev in inj_cb):
-                        run_flag = True
-                    in_group += 1
-                    if in_group == L:  # the Timer runs after the last user callback of this dispatch
-                        in_group = 0
-                        if run_flag and first_set is None and en[2][0] in ("be", "ee"):
-                            first_set = en[2]
-            want = ([["tb", first_set[1], first_set[2]]] if first_set and first_set[0] == "be" else
-                    [["tep", first_set[1]]] if first_set else []) + [["total"]]
-            ctx.oracle("Timer lines", prints == want, case, detail={"impl": prints, "expected": want}, sig=f"{sig}/timer-oracle")
-        else:
-            ctx.oracle("Timer prints total", prints[-1:] == [["total"]], case, detail={"impl": prints}, sig=f"{sig}/timer-oracle")
-    if not timer:
-        ctx.oracle("no Timer output without time=True", prints == [], case, detail={"impl": prints}, sig=f"{sig}/timer-oracle")
-
+        ctx.oracle("stopped run is a no-op", rec.log == [] and h_after == h_before and final["stop"], case,
+                   detail={"log": rec.log[:10]}, sig=f"{sig}/noop", theorem="C12_stopped_run_is_noop, C12_session_stopped")
+    ctx.count(f"stdout_lines(time={timer})={min(printed_lines, 3)}")
     # ---------------- correspondence with the model (QV.Train.session; this call's entry)
     if m is not None:
         if "error" in m:
@@ -518,6 +667,12 @@ def one_call(ctx, case, kind, st, rng, hold, objs, run, r_idx, sess, m):
                       theorem="C12_protocol, C12_complete_without_stop, C12_stop_in_batch/at_epoch_end/at_epoch_start/at_train_start, C12_fit_args")
             ctx.point("calls", "property", [[c[1], c[2]] for c in calls], m["calls"], case, exact=True, sig=f"{sig}/calls",
                       theorem="C12_dispatch_order, C12_callbacks_container")
+        if cbs:
+            ctx.point("user functions invoked", "property", rec.ucalls, m["userCalls"], case, exact=True, sig=f"{sig}/user-calls",
+                      theorem="C12_lambda_dispatch, C12_lambda_init")
+            if not L:
+                ctx.point("calls", "property", [[c[1], c[2]] for c in calls], m["calls"], case, exact=True, sig=f"{sig}/calls",
+                          theorem="C12_lambda_dispatch, C12_dispatch_order, C12_callbacks_container")
         ctx.point("log", "property", rec.log, strip_model_log(m["log"]), case, exact=True, sig=f"{sig}/log",
                   theorem="C12_param_window, C12_sticky, C12_scheduler_once_per_epoch, C12_batches_per_epoch")
         ctx.point("final", "property", final, {"stop": m["stop"], "ver": m["ver"], "sched": m["sched"]}, case, exact=True,
@@ -525,9 +680,10 @@ def one_call(ctx, case, kind, st, rng, hold, objs, run, r_idx, sess, m):
         if full:
             ctx.point("batches per uninterrupted epoch", "property", sorted(set(full)), [m["batchesPerEpoch"]], case, exact=True,
                       sig=f"{sig}/batches-per-epoch", theorem="C12_batches_per_epoch")
-        ctx.point("callbacks reached", "property", sorted({c[1] for c in calls}) if exp_events else [], sorted(set(m["cbs"])) if exp_events else [],
+        reach = lambda i: any(active(i, ev) for ev in exp_events)  # noqa: E731
+        ctx.point("callbacks reached", "property", sorted({c[1] for c in calls}) if exp_events else [],
+                  sorted(i for i in set(m["cbs"]) if reach(i)) if exp_events else [],
                   case, exact=True, sig=f"{sig}/callbacks-reached", theorem="C12_callbacks_container")
-        ctx.point("timer_prints", "aux", prints, m["prints"], case, exact=True, sig=f"{sig}/timer")
 
 
 # ------------------------------------------------------------------ generation
@@ -589,6 +745,8 @@ def injections(start, epochs, nb, cbs, rng, thorough, quota):
     for p in cand:
         if p[0] == "mid":
             out.append(([], [[p[1], p[2]]], False))
+            if thorough or rng.random() < 0.5:
+                out.append(([], [], False, None, [[p[1], p[2]]]))  # the same batch, but raised BEFORE the update
         else:
             out.append(([[rng.choice(cbs), p]], [], False))
     # double requests: only the first matters; a request by a callback that is not in the list is never made
@@ -606,18 +764,43 @@ def injections(start, epochs, nb, cbs, rng, thorough, quota):
     return out
 
 
-def make_run(rng, start, epochs, N, B, cbs, timer, sched, icb, imid, pre):
-    return {"start": start, "epochs": epochs, "N": N, "B": B, "neg": neg_choice(rng, N, B), "form": rng.choice(DATA_FORMS),
-            "cbs": cbs, "cb_form": cb_form_choice(rng, cbs), "time": timer, "sched": sched, "pre": pre,
-            "inject_cb": icb, "inject_mid": imid}
+def make_run(rng, start, epochs, N, B, cbs, timer, sched, icb, imid, pre, ipre=None):
+    run = {"start": start, "epochs": epochs, "N": N, "B": B, "neg": neg_choice(rng, N, B), "form": rng.choice(DATA_FORMS),
+           "cbs": cbs, "cb_form": cb_form_choice(rng, cbs), "time": timer, "sched": sched, "pre": pre,
+           "inject_cb": icb, "inject_mid": imid}
+    if N == 0:  # `_shuffle_data` draws negative indices with torch.randint(N, ...) unless the two sizes agree: only then N = 0 is accepted
+        run["neg"] = rng.choice([None, 0, B])
+    if ipre:
+        run["inject_pre"] = ipre
+    return run
 
 
-def gen_session(rng):
+def gen_objs(rng):
+    """callback objects with a SUBSET of the six handlers: LambdaCallback (handlers in the forms CallbackList can call) or
+    CallbackBase subclass overriding only some methods; now and then no handler at all (`LambdaCallback()`)"""
+    objs = {}
+    for i in range(3):
+        lam = rng.random() < 0.7
+        u = rng.random()
+        if u < 0.08:
+            forms = ["none"] * 6
+        elif u < 0.2:  # one handler only
+            forms = ["none"] * 6
+            forms[rng.randrange(6)] = rng.choice(DISPATCH_FORMS) if lam else "pos"
+        else:
+            forms = [("none" if rng.random() < 0.45 else (rng.choice(DISPATCH_FORMS) if lam else "pos")) for _ in range(6)]
+        objs[str(i)] = {"lam": lam, "forms": forms}
+    return objs
+
+
+def gen_session(rng, ncalls=None, empty_ok=False):
     """2..3 consecutive calls on one object; each call has its own sizes / callbacks / options; the caller sometimes clears or sets
     the flag in between, sometimes passes the same callbacks container again"""
     runs = []
-    for r in range(rng.choice([2, 2, 3])):
+    for r in range(ncalls or rng.choice([2, 2, 3])):
         N, B = rng.choice(NB_CHOICES)
+        if empty_ok and rng.random() < 0.3:
+            N, B = rng.choice(NB_EMPTY)
         nb = -(-N // B)
         start = rng.choice([1, 1, 0, -2, 3, 7])
         epochs = start + rng.choice([-1, 0, 0, 1, 1, 2])
@@ -637,8 +820,11 @@ def gen_session(rng):
                 icb = [[rng.choice(cbs), p]]
         elif u < 0.55 and cbs and epochs >= start:
             icb, per = periodic(start, epochs, nb, cbs, rng)
+        ipre = None
+        if imid and rng.random() < 0.5:
+            imid, ipre = [], imid
         pre = rng.choice([None, None, None, False, False, True]) if r else rng.choice([None, None, None, None, False, True])
-        run = make_run(rng, start, epochs, N, B, cbs, rng.random() < 0.6, rng.random() < 0.5, icb, imid, pre)
+        run = make_run(rng, start, epochs, N, B, cbs, rng.random() < 0.6, rng.random() < 0.5, icb, imid, pre, ipre)
         if per:
             run["periodic"] = per
         if r and cbs == runs[-1]["cbs"] and rng.random() < 0.7:
@@ -662,13 +848,139 @@ def gen_cases(ctx, thorough):
                 sched = rng.random() < 0.6
                 quota = 4 if kind == "pos" else 2
                 for (icb, imid, stop0, *per) in injections(start, epochs, nb, cbs, rng, thorough, quota):
-                    run = make_run(rng, start, epochs, N, B, cbs, timer, sched, icb, imid, True if stop0 else None)
-                    if per:
+                    run = make_run(rng, start, epochs, N, B, cbs, timer, sched, icb, imid, True if stop0 else None,
+                                   per[1] if len(per) > 1 else None)
+                    if per and per[0]:
                         run["periodic"] = per[0]
                     yield {"kind": kind, "lambda": lam, "dseed": rng.randrange(1 << 30), "runs": [run]}
     for i in range(1500 if thorough else 150):
         yield {"kind": KINDS[i % 3] if i % 2 else "pos", "lambda": [rng.random() < 0.5 for _ in range(3)],
                "dseed": rng.randrange(1 << 30), "runs": gen_session(rng)}
+    # runs without batches (no rows): every (epochs - start), a stop at every point of the unstopped run (ts / es / ee / te)
+    for d in range(-1, 3):
+        for (N, B) in (NB_EMPTY if thorough else [rng.choice(NB_EMPTY)]):
+            start = rng.choice([1, 0, -2, 3])
+            for v in range(3 if thorough else 1):
+                cbs = cb_lists(rng) if rng.random() < 0.85 else []
+                for (icb, imid, stop0, *per) in injections(start, start + d, 0, cbs, rng, True, 0):
+                    run = make_run(rng, start, start + d, N, B, cbs, rng.random() < 0.6, rng.random() < 0.6, icb, imid, True if stop0 else None)
+                    if per and per[0]:
+                        run["periodic"] = per[0]
+                    case = {"kind": "pos", "lambda": [rng.random() < 0.5 for _ in range(3)], "dseed": rng.randrange(1 << 30), "runs": [run]}
+                    if rng.random() < 0.4:
+                        case["objs"] = gen_objs(rng)
+                    yield case
+    # callbacks holding only a subset of the six handlers (single calls with a stop at a random point, and sessions)
+    for i in range(1200 if thorough else 140):
+        single = i % 2 == 0
+        yield {"kind": KINDS[i % 3] if i % 4 == 1 else "pos", "lambda": [True], "objs": gen_objs(rng), "dseed": rng.randrange(1 << 30),
+               "runs": gen_session(rng, ncalls=1 if single else None, empty_ok=False)}
+    for i in range(200 if thorough else 30):
+        yield {"kind": "pos", "lambda": [True], "objs": gen_objs(rng), "dseed": rng.randrange(1 << 30),
+               "runs": gen_session(rng, ncalls=rng.choice([1, 2]), empty_ok=True)}
+    yield from gen_ctor_cases(rng, 600 if thorough else 90)
+
+
+# ------------------------------------------------------------------ LambdaCallback constructor stream
+def gen_ctor_cases(rng, count):
+    """six constructor arguments: None | ["fn", form, k] (callable with k parameters by construction) | ["nc", j] (NON_CALLABLES[j])"""
+    for c in range(count):
+        mode = rng.choice(["valid", "valid", "one_bad", "one_bad", "many_bad", "all_none" if c % 9 == 0 else "one_bad"])
+        args = []
+        for tag in SLOTS:
+            k = SLOT_ARGS[tag]
+            if mode == "all_none" or rng.random() < 0.4:
+                args.append(None)
+            else:
+                args.append(["fn", rng.choice(ALL_FORMS), k])
+        bad_slots = [] if mode in ("valid", "all_none") else rng.sample(range(6), 1 if mode == "one_bad" else rng.choice([2, 3]))
+        for j in bad_slots:
+            k = SLOT_ARGS[SLOTS[j]]
+            if rng.random() < 0.35:
+                args[j] = ["nc", rng.randrange(len(NON_CALLABLES))]
+            else:
+                form = rng.choice(ALL_FORMS)
+                wrong = rng.choice([x for x in range(0, 5) if x != k and (x >= 1 or form in ("pos", "partial", "method", "obj"))])
+                args[j] = ["fn", form, wrong]
+        yield {"ctor": args}
+
+
+def ctor_case(ctx, case):
+    from qucumber.callbacks import CallbackBase, LambdaCallback
+
+    ctx.current_case = case
+    args = case["ctor"]
+    received = []
+    fns, margs = [], []
+    for j, (tag, a) in enumerate(zip(SLOTS, args)):
+        if a is None:
+            fns.append(None)
+            margs.append(None)
+        elif a[0] == "nc":
+            fns.append(NON_CALLABLES[a[1]])
+            margs.append("x")
+        else:
+            fns.append(make_fn(a[2], a[1], (lambda jj: lambda t: received.append([jj, len(t)]))(j)))
+            margs.append({"id": j, "nparams": a[2]})  # the parameter count is known by construction, not read back with inspect
+    # independent reference: the first offending argument in constructor order decides
+    exp = None
+    for tag, a in zip(SLOTS, args):
+        if a is not None and a[0] == "nc":
+            exp = "TypeError"
+            break
+        if a is not None and a[2] != SLOT_ARGS[tag]:
+            exp = "ValueError"
+            break
+    err, cb = None, None
+    try:
+        cb = LambdaCallback(**{SLOT_NAME[tag]: f for tag, f in zip(SLOTS, fns)})
+    except (ValueError, TypeError) as e:
+        err = type(e).__name__  # the message text is not part of the property
+    sig = "lambda/ctor"
+    bad = sum(1 for tag, a in zip(SLOTS, args) if a is not None and (a[0] == "nc" or a[2] != SLOT_ARGS[tag]))
+    ctx.count(f"ctor:{'ok' if exp is None else exp}")
+    ctx.count(f"ctor:offending_args={min(bad, 2)}{'+' if bad > 2 else ''}")
+    for a in args:
+        ctx.count("ctor:arg=" + ("None" if a is None else "non-callable" if a[0] == "nc" else f"fn/{a[1]}"))
+    ctx.oracle("LambdaCallback(...) raises exactly for the first argument that is not None / not a callable with the event's number of "
+               "parameters (TypeError if not callable, ValueError if the count is wrong)", err == exp, case,
+               detail={"impl": err, "expected": exp}, sig=f"{sig}/validation", theorem="C12_lambda_init")
+    if cb is not None and exp is None:
+        # behaviour, not identity: calling cb.on_<slot>(event's arguments) runs the caller's function for THAT slot exactly once with
+        # those arguments (forms whose signature accepts the positional call) / does nothing and returns None for a slot left None
+        during_ctor = list(received)
+        ok_slots, ok_noop, impl_h = True, True, []
+        for j, (tag, f, a) in enumerate(zip(SLOTS, fns, args)):
+            h = getattr(cb, SLOT_NAME[tag])
+            del received[:]
+            if f is None:
+                try:
+                    ok_noop = ok_noop and h(*range(SLOT_ARGS[tag])) is None and received == []
+                except Exception:
+                    ok_noop = False
+                impl_h.append(None)
+            elif a[1] in ("pos", "def", "var", "partial", "method", "obj"):
+                try:
+                    h(*range(SLOT_ARGS[tag]))
+                except Exception:  # e.g. another slot's function sits here and does not take this event's arguments
+                    ok_slots = False
+                ok_slots = ok_slots and received == [[j, SLOT_ARGS[tag]]]
+                impl_h.append(received[0][0] if received else "?")
+            else:  # kw / kwonly / pkw forms cannot be called positionally with the event's arguments: only their acceptance is judged
+                impl_h.append(j)
+        ctx.oracle("each slot runs the caller's function for THAT slot; a slot left None is a no-op accepting the event's arguments",
+                   ok_slots and ok_noop and isinstance(cb, CallbackBase) and during_ctor == [], case,
+                   detail={"slots_ok": ok_slots, "noop_ok": ok_noop, "calls_during_construction": during_ctor[:4]},
+                   sig=f"{sig}/slots", theorem="C12_lambda_init")
+    if ctx.driver is not None:
+        m = ctx.driver.call("c12.lambda_init", args=margs)
+        ctx.point("constructor outcome (exception type)", "property", err, m.get("error"), case, exact=True,
+                  sig=f"{sig}/outcome", theorem="C12_lambda_init")
+        if cb is not None and exp is None and "handlers" in m:
+            ctx.point("function run per slot", "property", impl_h, m["handlers"], case, exact=True, sig=f"{sig}/handlers",
+                      theorem="C12_lambda_init")
+    ctx.case(case, nontrivial=any(a is not None for a in args),
+             sample={"ctor": args, "expected": exp})
 
 
 def run(ctx):
